@@ -374,6 +374,8 @@ def entity_xml(e):
         body += idp_descriptor(e['idp'])
     if e.get('sp') is not None:
         body += sp_descriptor(e['sp'])
+    for extra in e.get('more_sp', []):
+        body += sp_descriptor(extra)          # an entity may carry several descriptors of one role
     if e.get('aa') is not None:
         a = e['aa']
         body += '<md:AttributeAuthorityDescriptor protocolSupportEnumeration="%s">%s%s</md:AttributeAuthorityDescriptor>' % (
